@@ -14,8 +14,12 @@ use crate::universe::{ns_secret, Val};
 /// channel sends, oneshot replies). Used when already inside a tokio runtime.
 pub fn block_on_park<F: Future>(f: F) -> F::Output {
     use std::{
-        sync::Arc,
+        sync::{
+            atomic::{AtomicU32, Ordering},
+            Arc,
+        },
         task::{Context, Poll, Wake, Waker},
+        time::{Duration, Instant},
     };
     struct Parker(std::thread::Thread);
     impl Wake for Parker {
@@ -23,13 +27,32 @@ pub fn block_on_park<F: Future>(f: F) -> F::Output {
             self.0.unpark();
         }
     }
+    // Hang detector: every future driven here is a request to a store actor (or a handler that
+    // awaits one) and normally completes in microseconds. If the actor thread died (a panic of
+    // the system under test), a request that was already queued is never answered. The case is
+    // then failed by a panic of the harness thread, which the per-case catch turns into a
+    // violation. After a few such timeouts the deadline is shortened so that a broken tree
+    // cannot stall the run.
+    static TIMEOUTS: AtomicU32 = AtomicU32::new(0);
+    let deadline = if TIMEOUTS.load(Ordering::Relaxed) >= 3 {
+        Duration::from_millis(500)
+    } else {
+        Duration::from_secs(10)
+    };
+    let start = Instant::now();
     let waker = Waker::from(Arc::new(Parker(std::thread::current())));
     let mut cx = Context::from_waker(&waker);
     let mut f = std::pin::pin!(f);
     loop {
         match f.as_mut().poll(&mut cx) {
             Poll::Ready(v) => return v,
-            Poll::Pending => std::thread::park_timeout(std::time::Duration::from_millis(50)),
+            Poll::Pending => {
+                if start.elapsed() > deadline {
+                    TIMEOUTS.fetch_add(1, Ordering::Relaxed);
+                    panic!("no reply from the store actor within {deadline:?} (actor thread dead after a panic, or deadlocked)");
+                }
+                std::thread::park_timeout(Duration::from_millis(50))
+            }
         }
     }
 }
@@ -51,7 +74,13 @@ pub fn block_on<F: Future>(f: F) -> F::Output {
                     .expect("runtime"),
             );
         }
-        rt.as_ref().unwrap().block_on(f)
+        // hang detector, see block_on_park
+        rt.as_ref().unwrap().block_on(async {
+            match tokio::time::timeout(std::time::Duration::from_secs(60), f).await {
+                Ok(v) => v,
+                Err(_) => panic!("future did not complete within 60 s (store actor dead after a panic, or deadlocked)"),
+            }
+        })
     })
 }
 
